@@ -88,6 +88,21 @@ class C04(Check):
                     t += rng.choice([1, 1, 2, 3])
                 sigs.append(sg)
             cases.append({'f': f, 'nv': 2, 'sigs': sigs, 'n': max(len(x) for x in sigs), 'dec': 1})
+        # integer time-stamps beyond 2**53 (nanoseconds since the epoch, unit ns): the first sample at 0, the others T0 + k; bounds are whole numbers of
+        # nanoseconds, so every stamp of the result is an integer that must be exact (compared with the list of the visitor model, DenseVisitor.deval on Z)
+        bigf = [('oncet', 0, 2, ('var', 0)), ('histt', 1, 3, Xs), ('evt', 0, 2, ('var', 0)), ('alwt', 1, 2, Xs), ('sincet', 0, 3, Xs, Zs), ('untilt', 1, 2, Xs, Zs),
+                ('and', ('oncet', 0, 2, Xs), Zs), ('a2', 'add', ('var', 0), ('evt', 1, 1, ('var', 1)))]
+        for k in range(16 if tier == 'quick' else 200):
+            f = bigf[k % len(bigf)]
+            T0 = [1700000000000000000, 2 ** 53, 2 ** 60 + 1, 1000][k % 4]
+            sigs = []
+            for _ in range(2):
+                sg, t = [[0, rng.randint(-3, 3)]], T0
+                for _ in range(rng.randint(3, 7)):
+                    t += rng.choice([1, 1, 2, 3, 5])
+                    sg.append([t, rng.randint(-3, 3)])
+                sigs.append(sg)
+            cases.append({'f': f, 'nv': 2, 'sigs': sigs, 'n': max(len(x) for x in sigs), 'big': T0})
         # partial arithmetic beyond the common domain: xb is longer than xa and takes, only after the end of xa, a value on which the term is undefined
         # (division by 0, sqrt / ln of a negative number): the values on the common domain are well defined
         X, Y = ('var', 0), ('var', 1)
@@ -125,6 +140,8 @@ class C04(Check):
             sx = lambda l: '(' + ' '.join('(%d %d)' % (t, v) for t, v in l) + ')'
             return ['(isect %d %s %s)' % (['and', 'or', 'sub', 'add'].index(c['merge']), sx(c['a']), sx(c['b']))]
         used = fml.fvars(c['f'])
+        if c.get('big'):
+            return ['(deval %s (%s))' % (fml.to_sx(c['f']), ' '.join(dense.sig_sx(s_) for s_ in c['sigs']))]
         msigs = c.get('model_sigs', c['sigs'])
         t0 = max(msigs[i][0][0] for i in used)
         tend = max(msigs[i][-1][0] for i in used)
@@ -148,6 +165,9 @@ class C04(Check):
             return [{'monitor': 'dense-merge', 'op': c['merge'], 'a': c['a'], 'b': c['b']}]
         used = fml.fvars(c['f'])
         to_impl = (lambda sg: [[t * 0.1, float(v)] for t, v in sg]) if c.get('dec') else dense.to_impl
+        if c.get('big'):
+            return [{'monitor': 'dense-offline', 'vars': fml.VARS[:c['nv']], 'spec': 'out = ' + fml.to_text(c['f']), 'unit': 'ns',
+                     'calls': [['evaluate', [[fml.VARS[i], [[int(t), float(v)] for t, v in c['sigs'][i]]] for i in used]]]}]
         return [{'monitor': 'dense-offline', 'vars': fml.VARS[:c['nv']], 'spec': self.spec_text(c),
                  'calls': [['evaluate', [[fml.VARS[i], to_impl(c['sigs'][i])] for i in used]]]}]
 
@@ -166,6 +186,21 @@ class C04(Check):
                 return 'ok', None
             return 'violation', {'call': 'intersection(a, b, %s)' % c['merge'], 'a': c['a'], 'b': c['b'],
                                  'expected': {'source': 'DenseMerge.isect (proved correct in DenseMergeCorrect.v)', 'value': exp}, 'observed': r}
+        if c.get('big'):
+            det = {'spec': 'out = ' + fml.to_text(c['f']), 'unit': 'ns', 'signals_ns': c['sigs'], 'shape': 'integer_time_stamps'}
+            if not fml.fvars(c['f']):
+                return 'dropped', None
+            i = ires[0]
+            r = i['calls'][0] if i['setup']['status'] == 'ok' else i['setup']
+            if r['status'] != 'ok':
+                return 'violation', dict(det, observed=r)
+            if not mlines[0].startswith('DEVAL') or mlines[0] == 'DEVAL NONE':
+                return 'model-error', mlines[0]
+            dv = [[int(x.split(':')[0]), float(fml.parse_val(x.split(':')[1]))] for x in mlines[0].split()[1:]]
+            got = [[t, float(v)] for t, v in r['value'] if t != math.inf and t != 'inf']
+            if any(not isinstance(t, int) and not float(t).is_integer() for t, _ in got) or [[int(t), v] for t, v in got] != dv:
+                return 'violation', dict(det, kind='list', expected={'source': 'DenseVisitor.deval on integer ticks of 1 ns', 'samples_ns': dv}, observed={'samples_ns': got})
+            return 'ok', None
         if not dense.dn_exact(mlines[0]):
             return 'dropped', None
         ref = dense.parse_dn(mlines[0])
